@@ -45,6 +45,12 @@ def gen_cases(rng, tier, driver, corr, stats):
         for inl in range(0, 19):
             for outl in (0, 1, 15, 16, 17, 18):
                 corr.one("PRFS %s %s %d" % (hx(gen.patterned(rng, 16)), hx(rnd_bytes(rng, inl)), outl)); stats["ops"]["PRFS"] += 1
+        # PrfShort must refuse every length above 16, also those whose low 32 bits are small
+        for big in (17, 255, 2 ** 32, 2 ** 32 + 5, 2 ** 32 + 16, 2 ** 33 + 1, 2 ** 63, 2 ** 64 - 1):
+            k = gen.patterned(rng, 16)
+            corr.one("PRFSL %s %s %d %d" % (hx(k), hx(rnd_bytes(rng, 5)), big, 16)); stats["ops"]["PRFS-huge-inlen"] += 1
+            corr.one("PRFSL %s %s %d %d" % (hx(k), hx(rnd_bytes(rng, 5)), 5, big)); stats["ops"]["PRFS-huge-outlen"] += 1
+        corr.one("PRFSL %s %s %d %d" % (hx(gen.patterned(rng, 16)), hx(rnd_bytes(rng, 5)), 5, 16)); stats["ops"]["PRFS-huge-control"] += 1
         for v in ("hmac", "hmaca"):
             for klen in (0, 1, 31, 32, 33, 63, 64, 65, 100, 1000):
                 for mlen in (0, 1, 31, 32, 33, 64, 100, rng.choice(gen.boundary_lengths(8, maxlen))):
